@@ -773,6 +773,8 @@ def strengthen_core(sk):
     """verified strengthening of a core item inside this batch: `usize::from_u64` never fails on a 64-bit target
     (the trait-level contract only promises success up to 0xffff_ffff)"""
     rou = [c for c in sk.mods['read::reader']['chunks'] if not isinstance(c[0], str) and c[0].label == 'ReaderOffset for usize'][0][0]
+    if 'fn fits' in rou.text:
+        return      # core.py now states both strengthenings itself (fits() / [C01:eof-exact] on read_address)
     rou.splice('from_u64', ret='res', ensures=['[C01:checked-width] res is Ok'])
     # `read_address` fails only at the end of input (core states the value, not the exact error condition)
     rd = [c for c in sk.mods['read::reader']['chunks'] if not isinstance(c[0], str) and c[0].label == 'Reader'][0][0]
